@@ -87,7 +87,7 @@ def h_submit(shapes=("chain3",), bss=(1, 2), maxns=(None, 1), tas=(True,), time_
         try:
             _run(ex, w)
         except Hang as e:
-            ex.check(False, "C05: a JADE process did not terminate (no return within the wall-clock deadline)", what=str(e)[:200])
+            ex.check(False, "C05: a JADE process did not terminate (no return within the CPU-time deadline)", what=str(e)[:200], fatal=True)
         finally:
             w.close()
 
